@@ -9,9 +9,10 @@ BackoffDoneT(sc) == TRUE /\ BackoffDone(sc)
 DisconnectT(sc, how) == TRUE /\ Disconnect(sc, how)
 ScShutdownT(sc) == TRUE /\ ScShutdown(sc)
 UpdAddrsT(sc, kind) == TRUE /\ UpdAddrs(sc, kind)
+StaleFailT(sc) == TRUE /\ StaleFail(sc)
 ChanCloseT == TRUE /\ ChanClose
 DeliverT == TRUE /\ Deliver
 Next == \/ \E sc \in SCs : \/ ConnectT(sc) \/ DialOkT(sc) \/ DialFailT(sc) \/ ConnLostT(sc) \/ BackoffDoneT(sc)
-                           \/ ScShutdownT(sc) \/ (\E kind \in {"same", "new", "keep"} : UpdAddrsT(sc, kind)) \/ \E how \in {"goaway", "close"} : DisconnectT(sc, how)
+                           \/ ScShutdownT(sc) \/ StaleFailT(sc) \/ (\E kind \in {"same", "new", "keep"} : UpdAddrsT(sc, kind)) \/ \E how \in {"goaway", "close"} : DisconnectT(sc, how)
         \/ ChanCloseT \/ DeliverT
 ====
